@@ -24,25 +24,6 @@ func TestVerif_C19(t *testing.T) {
 			kit.JournalDone()
 		}()
 		acts := g.mgmtActions(false, true)
-		// public namespaces are configured the documented way: rewrite the dataset's meta-entity in
-		// core.Dataset with another publicNamespaces list (read-modify-write, the list always present)
-		acts["setPublicNamespaces"] = func(t *rapid.T) {
-			g.t = t
-			live := g.live()
-			if len(live) == 0 {
-				t.Skip("no dataset")
-			}
-			name := rapid.SampledFrom(live).Draw(t, "ds")
-			all := append([]string{}, kit.PoolNS...)
-			all = append(all, "http://data.mimiro.io/core/dataset/")
-			var list []string
-			for _, ns := range all {
-				if rapid.Bool().Draw(t, "in") {
-					list = append(list, ns)
-				}
-			}
-			g.setPublicNamespaces(name, list)
-		}
 		acts[""] = func(t *rapid.T) { g.t = t; g.checkCatalogue() }
 		t.Repeat(acts)
 	})
@@ -252,38 +233,3 @@ func TestVerif_C19_concurrent(t *testing.T) {
 	})
 }
 
-// setPublicNamespaces rewrites the meta-entity of a dataset with another
-// publicNamespaces list (what DOCUMENTATION.md "public namespaces" describes).
-func (g *gm) setPublicNamespaces(name string, list []string) {
-	g.record(Op{K: "setPublicNamespaces", Name: name, ID: strings.Join(list, " ")})
-	metas, err := g.h.Latest("core.Dataset", nil)
-	if err != nil {
-		g.fail("listing core.Dataset: %v", err)
-	}
-	var me *kit.Ent
-	for _, e := range metas {
-		if _, n, _ := strings.Cut(e.ID, ":"); n == name && !e.Deleted {
-			me = e.Clone()
-		}
-	}
-	if me == nil {
-		g.fail("CATALOGUE-META no live meta-entity for existing dataset %s", name)
-	}
-	prefix, _, _ := strings.Cut(me.ID, ":")
-	arr := make([]any, len(list))
-	for i, ns := range list {
-		arr[i] = ns
-	}
-	me.Props[prefix+":publicNamespaces"] = arr
-	if err := g.h.StoreBatch("core.Dataset", []*kit.Ent{me}, "store"); err != nil {
-		g.fail("storing the meta-entity of %s: %v", name, err)
-	}
-	if g.pubNS == nil {
-		g.pubNS = map[*kit.MDataset][]string{}
-	}
-	g.pubNS[g.m.DS[name]] = list
-	g.cls["public-namespaces-set"] = true
-	if len(list) == 0 {
-		g.cls["public-namespaces-emptied"] = true
-	}
-}
